@@ -6,7 +6,7 @@ Part F  r = apply_json_fragment(old, f, acl) for every (old, f) of one schema an
 Part P  json.loads(apply_patch(dumps(old), dumps(make_patch(old, new)))) == new for every ordered pair of one schema.
 Part A  apply_acl_filters(d, F) is a sub-document of d lying inside the parts F selects.
 Part C  RunGeneratorResult.new_json_fragment_files with two generators over one file, in both orders (plus a third
-        generator on another file): equals the two merges done one after the other, the second merge is judged by the
+        generator on another file, running last, first and between the two): equals the two merges done one after the other, the second merge is judged by the
         reference, and generators with disjoint selections commute.
 """
 from __future__ import annotations
@@ -464,16 +464,21 @@ def _gen_result(name, path, frag, acl, prio):
                                        config=R.clone(frag), reload="reload-" + name, perf=None, reload_prio=prio)
 
 
-def _run_chain(old, gens, with_other=True):
-    """gens = [(name, frag, acl)] in running order -> (files dict, generator results)"""
+def _run_chain(old, gens, with_other=True, other_pos=None):
+    """gens = [(name, frag, acl)] in running order -> (files dict, generator results); a generator for another file
+    runs at position other_pos (default: last) among them"""
     from annet.generators.result import RunGeneratorResult
     rr = RunGeneratorResult()
     grs = []
+    if other_pos is None:
+        other_pos = len(gens)
     for n, (name, frag, acl) in enumerate(gens):
+        if with_other and n == other_pos:
+            rr.add_json_fragment(_gen_result("other", OTHER, gens[0][1], gens[0][2], 5))
         gr = _gen_result(name, PATH, frag, acl, 10 + n)
         rr.add_json_fragment(gr)
         grs.append(gr)
-    if with_other:
+    if with_other and other_pos >= len(gens):
         rr.add_json_fragment(_gen_result("other", OTHER, gens[0][1], gens[0][2], 5))
     old_files = {PATH: R.clone(old)}
     return rr.new_json_fragment_files(old_files), grs
@@ -503,11 +508,28 @@ def chain_case(old, g1, g2):
             seq_exc = e
         evals += 2
         chain_exc, files, grs = None, None, None
+        chain = [(names[0], first["frag"], first["acl"]), (names[1], second["frag"], second["acl"])]
         try:
-            files, grs = _run_chain(old, [(names[0], first["frag"], first["acl"]), (names[1], second["frag"], second["acl"])])
+            files, grs = _run_chain(old, chain)
         except Exception as e:  # noqa
             chain_exc = e
         evals += 1
+        # the other file's generator running first, or between the two: the result for both files must be the same
+        if chain_exc is None:
+            for pos in (0, 1):
+                try:
+                    files_p, _ = _run_chain(old, chain, other_pos=pos)
+                    same = set(files_p) == set(files) and all(R.same_value(files_p[k][0], files[k][0]) and files_p[k][1] == files[k][1]
+                                                             for k in files)
+                    how = "" if same else "files=%s" % json.dumps({k: v[0] for k, v in files_p.items()}, default=repr)
+                except Exception as e:  # noqa
+                    same, how = False, repr(e)
+                evals += 1
+                if not same:
+                    viol.append(({"kind": "chain-depends-on-other-files-generator-position", "position": ["first", "between"][pos]},
+                                 "old=%s %s=%s %s=%s: with the other file's generator last: %s; %s: %s" % (
+                                     json.dumps(old), names[0], json.dumps(first), names[1], json.dumps(second),
+                                     json.dumps({k: v[0] for k, v in files.items()}, default=repr), ["first", "between"][pos], how)))
         case_txt = "old=%s %s=%s %s=%s" % (json.dumps(old), names[0], json.dumps(first), names[1], json.dumps(second))
         if seq_exc is not None or chain_exc is not None:
             if (seq_exc is None) != (chain_exc is None):
